@@ -155,7 +155,7 @@ def main():
         run(chk, 250, 2)
         c07_subject.run(chk, soracle, 500)
         c07_filtered.run(chk, soracle, 80)
-        if chk.broken() and not chk.spec_failures:
+        if (chk.broken() or chk.anchor_changed) and not chk.spec_failures:
             run(chk, 1000, 3)
             c07_subject.run(chk, soracle, 3000, exhaustive=False)
     chk.finish()
